@@ -93,6 +93,27 @@ def main():
         refuse(NAME, "handle_formatted_file: expected exactly one source_file::write_file call")
     if not re.search(r"&result,", hf):
         refuse(NAME, "handle_formatted_file: write_file is no longer given the complete formatted text `&result`")
+    # should_skip_module: a sequence of `if <cond> { return true; }` and a final `false`
+    sk = re.sub(r"\s+", "", fn_body(src, "should_skip_module"))
+    conds = []
+    rest = sk
+    KNOWN = [
+        ("ifcontains_skip(module.attrs()){returntrue;}", "skipAttr"),
+        ("ifconfig.skip_children()&&path!=main_file{returntrue;}", "skipChildrenNotMain"),
+        ("if!input_is_stdin&&context.ignore_file(path){returntrue;}", "ignored"),
+        ("if!input_is_stdin&&!config.format_generated_files(){letsource_file=context.psess.span_to_file_contents(module.span);"
+         "letsrc=source_file.src.as_ref().expect(\"SourceFilewithoutsrc\");ifis_generated_file(src,config){returntrue;}}", "generated"),
+    ]
+    while rest != "false":
+        for text, tag in KNOWN:
+            if rest.startswith(text):
+                conds.append(tag)
+                rest = rest[len(text):]
+                break
+        else:
+            refuse(NAME, "should_skip_module: statement not understood: " + rest[:160])
+    if not re.search(r"\.filter\(\|\(path,\s*module\)\|\s*\{\s*input_is_stdin\s*\|\|\s*!should_skip_module\(config,\s*&context,\s*input_is_stdin,\s*&main_file,\s*path,\s*module\)", proj):
+        refuse(NAME, "format_project: the filter is no longer `input_is_stdin || !should_skip_module(config, &context, input_is_stdin, &main_file, path, module)`")
     L = ["/- GENERATED by translate/c05_phases.py from src/formatting.rs.  Do not edit. -/",
          "namespace RF.Gen.Phases\n",
          "/-- steps of `Session::format_input_inner`, in source order -/",
@@ -104,6 +125,9 @@ def main():
          "/-- steps of `FormatContext::format_file` for one file, in source order; `emit` hands the complete\nformatted text to `handle_formatted_file` → `source_file::write_file` → the emitter -/",
          "inductive FileStep where | visit | appendNewline | formatLines | applyNewlineStyle | emit\n  deriving DecidableEq, Repr\n",
          f"def formatFile : List FileStep := [{', '.join('.' + t for t in p_file)}]\n",
+         "/-- the tests of `should_skip_module` (each `return true`), in source order; a path input is not standard input -/",
+         "inductive SkipCond where | skipAttr | skipChildrenNotMain | ignored | generated\n  deriving DecidableEq, Repr\n",
+         f"def shouldSkipConds : List SkipCond := [{', '.join('.' + t for t in conds)}]\n",
          "end RF.Gen.Phases\n"]
     changed = write_if_changed(os.path.join(a.out, "Phases.lean"), "\n".join(L))
     print(f"c05_phases: ok ({'rewritten' if changed else 'unchanged'}); formatProject = {p_proj}; formatFile = {p_file}")
